@@ -78,8 +78,11 @@ CfgStrings   == { <<>>, <<"plain">>, <<"amp", "lt">>, <<"CR">>, <<"space", "nonB
 
 IdpSigners == { [idpkey |-> k, hash |-> h] : k \in {"rsa-key", "rsa-signer"}, h \in {"default", "sha1", "sha256", "sha384", "sha512"} }
               \cup { [idpkey |-> "ecdsa-signer", hash |-> h] : h \in {"sha1", "sha256", "sha384", "sha512"} }
+\* mdage: "fresh" - both parties published their metadata just now; "stale" - three days ago, so that the validUntil
+\* the documents carry (two days) has passed.  The statement calls the published metadata sufficient registration
+\* without a time limit, and the library reads validUntil of neither document
 Cfg(e, k, b, sg, en, i) == [entityid |-> e, spkey |-> k, binding |-> b, signed |-> sg, enc |-> en,
-                            idpkey |-> i.idpkey, hash |-> i.hash]
+                            idpkey |-> i.idpkey, hash |-> i.hash, mdage |-> "fresh"]
 AllCfgs == { Cfg(e, k, b, sg, en, i) : e \in {"set", "unset"}, k \in {"rsa", "ecdsa"}, b \in {"redirect", "post"},
                                        sg \in BOOLEAN, en \in {"on", "off"}, i \in IdpSigners }
 \* the two deployments the "text" family is run under (x enc on / off)
@@ -89,6 +92,7 @@ TextCfgs == { Cfg("set",   "rsa", "redirect", FALSE, en, [idpkey |-> "rsa-key", 
 Case(f, pos, s, cfg) == [fam |-> f, pos |-> pos, s |-> s, cfg |-> cfg]
 TextCases == { Case("text", pos, s, cfg) : pos \in Positions, s \in TextStrings, cfg \in TextCfgs }
 CfgCases  == { Case("cfg",  pos, s, cfg) : pos \in {"NameID", "CustomName"}, s \in CfgStrings, cfg \in AllCfgs }
+             \cup { Case("cfg", "NameID", <<"plain">>, [cfg EXCEPT !.mdage = "stale"]) : cfg \in AllCfgs }
 
 (******************************** state *************************************)
 VARIABLES c,        \* the abstract case
